@@ -127,8 +127,10 @@ def assignments(draw):
             cli[n] = v
         if src in ("file", "both"):
             v2 = draw(O.value_strategy(n)) if src == "both" else v
+            # legacy name in the parent file: alone, or against the current name on the command line (which must win, and
+            # the saved file must carry the value that was actually used - round-4 seed C13d)
             alias = [a for a, c in O.ALIASES.items() if c == n]
-            if alias and src == "file" and draw(st.booleans()):
+            if alias and draw(st.booleans()):
                 fil[alias[0]] = v2
             else:
                 fil[n] = v2
